@@ -55,6 +55,7 @@ def showVal : Val → String
   | .int i => s!"I{i}"
   | .str s => "S" ++ showStr s
   | .route a b c => s!"R{a}:{b}:{c}"
+  | .route2 a b c d e => s!"R{a}:{b}:{c}:{d}:{e}"
   | .emptyList => "L"
 
 def showOVal : OVal → String
@@ -129,6 +130,8 @@ def probe : String :=
   s!"link={b h.linkNoneGuard} idstr={b h.idStringGuard} entity={b h.entityGuard} state={b h.stateNoneGuard} " ++
   s!"conv={b (["sdr list", "sdr show", "sdr showall"].all fun c => catchesConversion (catchOf h c))} " ++
   s!"arith={b (["sdr list", "sdr show", "sdr showall"].all fun c => catchesArithmetic (catchOf h c))} " ++
+  s!"bridge={b Gen.Cli.shape.bridge.isSome} pullupsNN={b Gen.Cli.aardvarkGuards.pullupsNotNone} " ++
+  s!"powerNN={b Gen.Cli.aardvarkGuards.powerNotNone} " ++
   "catch=" ++ (if h.convCatch.isEmpty then "-" else
     ";".intercalate (h.convCatch.map fun (c, l) => showStr (ofString c) ++ ":" ++ (if l.isEmpty then "-" else "+".intercalate l)))
 
@@ -215,6 +218,17 @@ def handle (line : String) : String :=
     | some b, some c => showEnding (mainEnd Gen.Cli.shape.closeInside Gen.Cli.exits b c)
     | _, _ => "bad-op"
   | ["probe"] => probe
+  | ["aardvark", p, w, f] =>
+    let ob (t : String) : Option (Option Bool) :=
+      if t == "N" then some none else if t == "1" then some (some true) else if t == "0" then some (some false) else none
+    match ob p, ob w, ob f with
+    | some p, some w, some f =>
+      let sw : AdapterWrite → String
+        | .pullups v => s!"i2c_pullups={if v then 1 else 0}"
+        | .power v => s!"target_power={if v then 1 else 0}"
+        | .bitrate k => s!"i2c_bitrate={k}"
+      " ".intercalate ((aardvarkOpenWrites Gen.Cli.aardvarkGuards p w f).map sw)
+    | _, _, _ => "bad-op"
   | ["argconvs", i] =>
     match i.toNat? with
     | none => "bad-op"
